@@ -1,0 +1,140 @@
+//go:build verif
+
+// Contracts for package lexer, checked by /verif/govc (comment-only; compiled only under tag verif).
+// Syntax: see /verif/DESIGN.md section 1.2.  Loops are numbered in source order within a function.
+package lexer
+
+//@ define wf(l) = l != nil && 0 <= l.lastNewLine && l.lastNewLine <= l.pos && l.lastNewLine <= len(l.input)
+//@ define allws(l, a, b) = forall(a, b, func(k int) bool { return k < len(l.input) && isWhiteSpace(l.input[k]) })
+//@ define tokstart(l, a, s) = a <= s && allws(l, a, s) && (s >= len(l.input) || !isWhiteSpace(l.input[s]))
+//@ define span(l, s, e) = string(l.input[s:e])
+
+//@ func New
+//@   fresh
+//@   ensures wf(result) && result.pos == 0 && !result.lineMode
+//@   property C16 C08 C15
+//@ func NewBytes
+//@   fresh
+//@   ensures wf(result) && result.pos == 0 && !result.lineMode && result.input == input
+//@   property C16 C08 C15
+//@ func NewLineMode
+//@   fresh
+//@   ensures wf(result) && result.pos == 0 && result.lineMode
+//@   property C16 C08 C15
+
+//@ func (*Lexer).skipWhitespace
+//@   requires wf(l)
+//@   modifies l.pos, l.hadWhitespace, l.hadNewline, l.lastNewLine, l.lineNumber
+//@   ensures  wf(l)
+//@   ensures  tokstart(l, old(l.pos), l.pos)
+//@   ensures  l.hadWhitespace == (l.pos > old(l.pos))
+//@   ensures  l.hadNewline == exists(old(l.pos), l.pos, func(k int) bool { return l.input[k] == '\n' })
+//@   loop 1 invariant wf(l) && old(l.pos) <= l.pos
+//@   loop 1 invariant allws(l, old(l.pos), l.pos)
+//@   loop 1 invariant l.hadWhitespace == (l.pos > old(l.pos))
+//@   loop 1 invariant l.hadNewline == exists(old(l.pos), l.pos, func(k int) bool { return l.input[k] == '\n' })
+//@   loop 1 decreases len(l.input) - l.pos
+//@   property C16 C08
+
+//@ func (*Lexer).readIdentifier
+//@   requires l != nil && l.pos >= 1 && l.pos <= len(l.input)
+//@   modifies l.pos
+//@   ensures  old(l.pos) <= l.pos && l.pos <= len(l.input)
+//@   ensures  literal:: result == span(l, old(l.pos)-1, l.pos)
+//@   ensures  forall(old(l.pos), l.pos, func(k int) bool { return IsAlphaNum(l.input[k]) })
+//@   ensures  maximal:: l.pos == len(l.input) || !IsAlphaNum(l.input[l.pos])
+//@   loop 1 invariant old(l.pos) <= l.pos && l.pos <= len(l.input) && pos == old(l.pos) - 1
+//@   loop 1 invariant forall(old(l.pos), l.pos, func(k int) bool { return IsAlphaNum(l.input[k]) })
+//@   loop 1 decreases len(l.input) - l.pos
+//@   property C16 C08
+
+//@ func (*Lexer).readLineComment
+//@   requires l != nil && l.pos >= 1 && l.pos <= len(l.input)
+//@   modifies l.pos
+//@   ensures  old(l.pos) <= l.pos && l.pos <= len(l.input)
+//@   ensures  forall(old(l.pos), l.pos, func(k int) bool { return notEOL(l.input[k]) })
+//@   ensures  l.pos == len(l.input) || !notEOL(l.input[l.pos])
+//@   ensures  len(result) <= l.pos - old(l.pos) + 1
+//@   loop 1 invariant old(l.pos) <= l.pos && l.pos <= len(l.input) && pos == old(l.pos) - 1
+//@   loop 1 invariant forall(old(l.pos), l.pos, func(k int) bool { return notEOL(l.input[k]) })
+//@   loop 1 decreases len(l.input) - l.pos
+//@   property C16 C08
+
+//@ func (*Lexer).readBlockComment
+//@   requires l != nil && l.pos >= 1 && l.pos < len(l.input)
+//@   modifies l.pos
+//@   ensures  old(l.pos) + 1 <= l.pos && l.pos <= len(l.input)
+//@   ensures  literal:: result == span(l, old(l.pos)-1, l.pos)
+//@   ensures  closed:: (l.pos >= old(l.pos) + 3 && l.input[l.pos-2] == '*' && l.input[l.pos-1] == '/') || l.pos == len(l.input) || l.input[l.pos] == 0
+//@   loop 1 invariant old(l.pos) + 2 <= l.pos && pos1 == old(l.pos) - 1 && l.pos <= len(l.input) + 1
+//@   loop 1 invariant ch == ite(l.pos - 1 < len(l.input), l.input[l.pos-1], 0)
+//@   loop 1 decreases len(l.input) + 1 - l.pos
+//@   property C16 C08
+
+//@ func (*Lexer).readString
+//@   requires l != nil && l.pos >= 1 && l.pos <= len(l.input) && sep != 0
+//@   modifies l.pos
+//@   ensures  old(l.pos) < l.pos
+//@   ensures  closed:: implies(result1, l.pos <= len(l.input) && l.input[l.pos-1] == sep)
+//@   ensures  unterminated:: implies(!result1, l.pos - 1 >= len(l.input) || l.input[l.pos-1] == 0)
+//@   loop 1 invariant old(l.pos) <= l.pos
+//@   loop 1 decreases len(l.input) - l.pos
+//@   property C16 C08
+
+//@ func (*Lexer).readNumber
+//@   requires l != nil && l.pos >= 1 && l.pos <= len(l.input) && l.input[l.pos-1] == ch && (isDigit(ch) || ch == '.')
+//@   modifies l.pos
+//@   ensures  old(l.pos) <= l.pos && l.pos <= len(l.input)
+//@   ensures  literal:: result1 == span(l, old(l.pos)-1, l.pos)
+//@   ensures  result0 == token.INT || result0 == token.FLOAT
+//@   loop 1 invariant old(l.pos) <= l.pos
+//@   loop 1 invariant l.pos <= len(l.input)
+//@   loop 1 invariant pos == old(l.pos) - 1
+//@   loop 1 decreases len(l.input) - l.pos
+//@   loop 2 invariant old(l.pos) <= l.pos
+//@   loop 2 invariant l.pos <= len(l.input)
+//@   loop 2 invariant pos == old(l.pos) - 1
+//@   loop 2 decreases len(l.input) - l.pos
+//@   loop 3 invariant old(l.pos) <= l.pos
+//@   loop 3 invariant l.pos <= len(l.input)
+//@   loop 3 invariant pos == old(l.pos) - 1
+//@   loop 3 decreases len(l.input) - l.pos
+//@   loop 4 invariant old(l.pos) <= l.pos
+//@   loop 4 invariant l.pos <= len(l.input)
+//@   loop 4 invariant pos == old(l.pos) - 1
+//@   loop 4 decreases len(l.input) - l.pos
+//@   loop 5 invariant old(l.pos) <= l.pos
+//@   loop 5 invariant l.pos <= len(l.input)
+//@   loop 5 invariant pos == old(l.pos) - 1
+//@   loop 5 decreases len(l.input) - l.pos
+//@   property C16 C08
+
+//@ func (*Lexer).CurrentLine
+//@   requires wf(l)
+//@   pure
+//@   ensures 0 <= result1
+//@   property C08
+
+//@ define isEndTok(t) = t.tokenType == token.EOL || t.tokenType == token.EOF
+//@ define litTok(t) = t.tokenType == token.IDENT || token.isIdentity(t.tokenType) || t.tokenType == token.INT || t.tokenType == token.FLOAT || t.tokenType == token.BLOCKCOMMENT || token.isC1(t.tokenType) || token.isC2(t.tokenType)
+//@ define strTokOK(l, s, e) = e >= s + 2 && (l.input[s] == '"' || l.input[s] == '`') && l.input[e-1] == l.input[s]
+//@ define lineCommentOK(l, s, e) = e >= s + 2 && l.input[s] == '/' && l.input[s+1] == '/' && forall(s, e, func(k int) bool { return notEOL(l.input[k]) }) && (e == len(l.input) || !notEOL(l.input[e]))
+//@ define endOK(l, s) = s >= len(l.input) || l.input[s] == 0 || l.input[s] == '"' || l.input[s] == '`'
+
+//@ func (*Lexer).NextToken
+//@   requires wf(l) && token.tablesOK()
+//@   modifies l.pos, l.hadWhitespace, l.hadNewline, l.lastNewLine, l.lineNumber, map token.interning
+//@   ensures  wf(l) && token.tablesOK()
+//@   ensures  nonnil:: result != nil
+//@   ensures  progress:: old(l.pos) < l.pos
+//@   witness s = l.pos after skipWhitespace#1
+//@   ensures  ws:: tokstart(l, old(l.pos), s) && s < l.pos
+//@   ensures  kinds:: implies(!isEndTok(result), s < len(l.input) && l.pos <= len(l.input) && (litTok(result) || result.tokenType == token.STRING || result.tokenType == token.LINECOMMENT || result.tokenType == token.ILLEGAL))
+//@   ensures  literal:: implies(!isEndTok(result) && litTok(result), result.literal == span(l, s, l.pos))
+//@   ensures  linecomment:: implies(result.tokenType == token.LINECOMMENT, lineCommentOK(l, s, l.pos))
+//@   ensures  string:: implies(result.tokenType == token.STRING, strTokOK(l, s, l.pos))
+//@   ensures  illegal:: implies(result.tokenType == token.ILLEGAL, l.pos == s + 1)
+//@   ensures  end:: implies(isEndTok(result), endOK(l, s))
+//@   ensures  endmarker:: implies(isEndTok(result), result == l.EOLEOF())
+//@   ensures  atend:: implies(old(l.pos) >= len(l.input), isEndTok(result) && l.pos >= len(l.input))
+//@   property C16 C08
